@@ -8,7 +8,9 @@ TRUST = ("Trusted: the VC generator and value model (cross-checked against CPyth
 CHECKS = {
  "C14": ("proof", "Every listed graph operation under contract has its whole-view postcondition (node set, directed and bidirected edge relation), "
          "its exception condition and its frame condition discharged from VCs generated out of the real AST, for all graphs of all sizes; "
-         "`intervene` is not under contract yet (it needs the Variable ADT) and is covered by the bounded run-time contract only.",
+         "`intervene` is proved relative to the axioms of the Variable algebra (x.intervene(S) is the counterfactual variable with x's name and exactly the subscripts S; injective on "
+         "plain variables) and additionally cross-checked against its definition on every mixed graph with <= 3 nodes (its inputs cannot be enumerated by the finite-model search); "
+         "`__eq__` (the relation all clauses are stated in) is under contract too.",
          TRUST, TECH + "; finite-model counterexamples replayed on the real code", "DESIGN.md §5 C14"),
  "C04": ("other", "All obligations of are_d_separated except one (canonical form, exception conditions, library preconditions, frame, symmetry of the "
          "specification) are proved for all graphs. The deciding obligation post.separated (verdict = separation in the augmented graph of the ancestral "
@@ -75,9 +77,10 @@ CHECKS = {
          "product and quotient (shared with C13). (2) Exhaustive over a syntactic-class abstraction: the real to_y0 printers of Product, Fraction, Sum, One, Zero are run on all 10,395 "
          "expression trees of depth <= 3 over opaque atomic leaves and the text is read back with CPython's own parser: it parses, uses only names parse_y0 knows, and -- read with ordinary "
          "precedence -- means what the object means; since the syntactic class of a printer's output does not depend on what lies below depth 1 this covers every parent/child/grandchild "
-         "combination (inductive, relative to Python's grammar being an operator-precedence grammar). (3) Bounded: parse_y0(str(e)) on sampled concrete expressions (value marks, "
-         "intervention subscripts, population tags, Q factors) judged by exact evaluation; object equality and text fix-point on the un-nested-division family. The leaf printers "
-         "(Variable, CounterfactualVariable, Distribution, Probability/PopulationProbability, QFactor) and the probability builders are covered by (3) only.",
+         "combination (inductive, relative to Python's grammar being an operator-precedence grammar). (3) Bounded: parse_y0(str(e)) on every probability leaf over three variables (1-2 children, 0-2 parents, "
+         "+/- marks, 0-2 subscripts in both insertion orders carried by all variables or by the first child only, with and without a population; also in fresh interpreters under three "
+         "hash seeds) and on sampled compound expressions (population tags, Q factors), judged by exact evaluation; object equality and text fix-point on the un-nested-division family. "
+         "The leaf printers (Variable, CounterfactualVariable, Distribution, Probability/PopulationProbability, QFactor) and the probability builders are covered by (3) only.",
          TRUST + "; Python's expression grammar is an operator-precedence grammar; variable names are those parse_y0 predefines (A-Z, A0-Z9, Pi, ...), as in the property's 'built through the public DSL'",
          "contract-based proof of the operators + exhaustive printer/parser check over syntactic classes (CPython's parser as oracle) + bounded round trips", "DESIGN.md §5 C12"),
  "C20": ("other", "Proved for all graphs (cyclic or not), node triples, conditioning sets and sigma maps, in the exact theory of relations: each per-triple predicate "
